@@ -51,7 +51,7 @@ func Run(r *core.Run) {
 		r.Cap("cannot read VERIF_OVERLAY: " + err.Error())
 		return
 	}
-	st, err := o.Instrument(dir, "/repo/tss/party.go", []string{"rnd", "failed", "early"}, []string{"StoreMessage"})
+	st, err := o.Instrument(dir, "/repo/tss/party.go", []string{"rnd", "failed", "early"}, []string{"StoreMessage", "Start", "Update", "CanProceed"})
 	if err != nil {
 		fmt.Fprintln(os.Stderr, "INFRASTRUCTURE: cannot instrument tss/party.go:", err)
 		os.Exit(2)
